@@ -550,11 +550,10 @@ def Ctx.opSetDescC (c : Ctx) (a : Actor) (tn : TName) (viaChn : Bool) (o : SetDe
   | none => c
   | some t =>
     if viaChn ∧ !t.isChan then c.emit a.sid (ctrl 404 tn) else
-    if !viaChn then c.opSetDesc a tn o else
-    -- under the `chn` spelling: what a non-owner may change is the own private data, stored with the reader's row
+    -- a channel reader, under either spelling: only the own private data, stored with the reader's row; anybody else as in a group
+    if !(match t.pud? a.uid with | some p => p.isChan | none => false) then c.opSetDesc a tn o else
     let hasAcs := o.auth ≠ "" ∨ o.anon ≠ ""
-    if t.owner ≠ a.uid ∧ (hasAcs ∨ o.pub ≠ .absent) then c.emit a.sid (ctrl 403 tn) else
-    if t.owner = a.uid then c.opSetDesc a tn o else
+    if hasAcs ∨ o.pub ≠ .absent then c.emit a.sid (ctrl 403 tn) else
     let (npriv, privCh) := mergeTok (t.pud a.uid).priv o.priv
     if !privCh then c.emit a.sid (ctrl 304 tn) else
     let (c, ok) := c.csubsUpdate tn a.uid (fun s => { s with priv := npriv })
